@@ -70,6 +70,14 @@ def plan(tier, seed):
                     if bb is None: continue
                     files = dict(base); files[names[i]] = b64(bb)
                     jobs.append(mkjob(pname, n, kind, i, files, rf, {"snap": False}, group, names[i], files[names[i]]))
+                # the same faults under options that only change what is logged (--verbose, --log-format json): isolation and the report are those of the plain run
+                for opt in (["--verbose"], ["--log-format", "json"], ["--verbose", "--log-format", "json"]):
+                    for kind in ("invalid-utf8", "syntax-error", "nul-byte"):
+                        bb = bad_bytes(pname, kind, P["good"])
+                        if bb is None: continue
+                        files = dict(base); files[names[i]] = b64(bb)
+                        jo = mkjob(pname, n, kind, i, files, rf, {"snap": False}, group, names[i], files[names[i]], extra="|opt:" + "+".join(o.lstrip("-") for o in opt if o.startswith("--")))
+                        jo["argv"] = jo["argv"] + opt; jo["options"] = opt; jobs.append(jo)
                 files = dict(base); files[names[i]] = b64(b"")
                 jobs.append(mkjob(pname, n, "empty", i, files, rf, {"snap": False}, group, names[i], b64(b"")))
                 jobs.append(mkjob(pname, n, "vanish", i, base, rf, {"snap": False, "faults": [{"kind": "vanish", "file": names[i]}]}, group, names[i], base[names[i]]))
